@@ -38,7 +38,7 @@ def eq(req, a, b):
         k = req.split(" ", 1)[0]
         if k == "peekall" and a.startswith("obs "):
             return set(a.split()[1:]) <= set(b.split()[1:])
-        if k == "smeasure":
+        if k in ("smeasure", "minto", "minto2"):
             return a in [x.strip() for x in b[4:].split("|")]
     return False
 
